@@ -5,11 +5,14 @@
 //  1. cache ingest: Cache.GnmiUpdate followed by UpdateMetadata / UpdateSize /
 //     Reset / Query (which re-read what was stored), directly and behind the
 //     collector's stamping logic with live subscribers attached;
+//
 //  2. subscribe.Server.Subscribe over an in-memory stream (single sessions, and
 //     storms of concurrent ONCE / POLL requests that are rejected mid-walk);
+//
 //  3. the real gnmi client receive path (client/gnmi.Client built with
 //     NewFromConn under client.BaseClient / client.CacheClient) over a bufconn
 //     gRPC server that plays generated response streams;
+//
 //  4. cli.QueryDisplay in group / single / proto / shortproto display, fed by
 //     the same server.
 //
